@@ -174,6 +174,15 @@ PERDECL = [
     # a callback whose declaration is longer than a line (the debug comment that repeats it must stay a comment)
     ["- decl: void on_event(void (*handler)(int event_code, double timestamp +value, const char * message, int severity_level +value, void * user_data))\n",
      "- decl: int plain2(int a)\n"],
+    # a class behind a preprocessor condition; a namespace (own module) whose options are toggled on the namespace itself;
+    # a namespace that holds nothing but extern "C" functions (no wrapper file of its own)
+    ["- decl: class Guarded\n  cpp_if: ifdef HAVE_GUARDED\n  declarations:\n  - decl: Guarded()\n  - decl: int get()\n",
+     "- decl: int after(int a)\n"],
+    ["- decl: namespace tools\n  declarations:\n  - decl: int add_one(int value)\n  - decl: enum Mode { OFF, ON }\n",
+     "- decl: int outside(int a)\n"],
+    ["- decl: namespace cfuncs\n  declarations:\n  - decl: int c_add(int a, int b)\n    options:\n      C_extern_C: true\n"
+     "  - decl: double c_scale(double x)\n    options:\n      C_extern_C: true\n",
+     "- decl: int outside2(int a)\n"],
     # overloads of which only the first carries declaration-level splicers (the emitters read them from "the" node)
     ["- decl: int twice(int n)\n  splicer:\n    lua:\n    - lua_pushinteger(L, 1);\n    - return 1;\n    c:\n    - return 2;\n",
      "- decl: int twice(double x)\n", "- decl: int twice(const char *s)\n"],
